@@ -73,12 +73,12 @@ theorem fallback_restored (p : Prog) (h : tight false p = true) (st : St) :
     (exec p none st).2.2.fallback = st.fallback :=
   (exec_keeps p false h).body st
 
-/-- the same inside a map access: whatever happens between two keys, once the map access is dropped the
-cell holds what it held when the map access was created -/
-theorem fallback_restored_in_map_access (leak : Bool) (body : Prog)
-    (h : tight false (.ma leak body .done) = true) (st : St) :
-    (exec (.ma leak body .done) none st).2.2.fallback = st.fallback :=
-  fallback_restored _ h st
+/-- the same for a mapping: whatever happens between two keys — and whether the visitor drops or LEAKS the
+map access — once `deserialize_map` returns the cell holds what it held before. (The map access owns no
+guard of its own: it points the cell at each key inside the scope of the container's guard.) -/
+theorem fallback_restored_in_map_access (leak : Bool) (loc : Loc) (body : Prog) (st : St) :
+    (exec (.guard loc (.ma leak body .done) .done) none st).2.2.fallback = st.fallback :=
+  fallback_restored _ (by simp [tight]) st
 
 /-! ## Nested calls (a user `Deserialize` impl calls `from_str`) -/
 
@@ -221,9 +221,11 @@ example : TopCall (outerDoc fun _ => .err (loc 2 4)) ∧ TopCall (outerDoc fun _
 example : runCall withoutNestedCall
     (runHistory [outerDoc fun _ => .err (loc 2 4), outerDoc fun _ => .panic, withNestedCall] Tls.init) =
     runCall withoutNestedCall Tls.init := by decide
-/-- a leaked map access under no guard leaves the cell dirty INSIDE the call: `tight` is needed for
-`fallback_restored` … -/
-example : (exec (.ma true (.key 6 .done) .done) none {}).2.2.fallback = some 6 := by decide
+/-- a map access under no guard (leaked or not) leaves the cell at its last key INSIDE the call: `tight` (every
+map access sits in a guard body) is needed for `fallback_restored` … -/
+example : (exec (.ma true (.key 6 .done) .done) none {}).2.2.fallback = some 6 ∧
+    (exec (.ma false (.key 6 .done) .done) none {}).2.2.fallback = some 6 ∧
+    (exec (.guard 3 (.ma false (.key 6 .done) .done) .done) none {}).2.2.fallback = none := by decide
 /-- … but not for a whole call: the document scope puts the entry value back -/
 example : (runCall (.scope false (.ma true (.key 6 .done) .done) .done) ⟨.empty, some 9⟩).2.fallback = some 9 := by decide
 
